@@ -1,5 +1,6 @@
 //! Independent strict decoder for the chunked transfer coding (RFC 7230 section 4.1), as
-//! emitted by a server that uses no chunk extensions and no trailers.
+//! emitted by a server that uses no chunk extensions and no trailers. Leading zeros and
+//! upper-case digits in the size line are legal (chunk-size = 1*HEXDIG).
 
 #[derive(Debug, Clone, PartialEq, Eq)]
 pub enum ChunkedEnd {
@@ -48,9 +49,6 @@ pub fn decode(input: &[u8]) -> Decoded {
         }
         if digits == 0 {
             return Decoded { data, chunk_lens, end: ChunkedEnd::Invalid(format!("no hex digits in size line at offset {pos}")) };
-        }
-        if digits > 1 && input[pos] == b'0' {
-            return Decoded { data, chunk_lens, end: ChunkedEnd::Invalid(format!("leading zero in chunk size at offset {pos}")) };
         }
         // CRLF
         if input[i] != b'\r' {
